@@ -259,6 +259,15 @@ def msg_event_requires(s, fsm):
                  'T1: message events occur in a session state (or in Idle, right after this very message closed the session: ignored)')
 
 
+def known_deviation(s, kf_id, rfc_says):
+    """An OPEN known finding with a precisely known deviant behaviour: the row below describes what the code does (so that any
+    OTHER behaviour in the same state is still a violation), and the RFC row it departs from is one separately named clause,
+    `rfc-row/<id>`, which is refuted on every such path and is the only thing the known-findings entry absorbs.  At call sites
+    (contract applied) the deviant row is simply what happens."""
+    if s.c.mode == 'verify':
+        s.post.append(('rfc-row/%s' % kf_id, lambda: z3.BoolVal(False)))
+
+
 def prof(fn, fired=None, structural_only=False):
     """FSM event spec = requires Inv; profile row; ensures Inv; only visible effects are compared"""
     if isinstance(fn, str):
@@ -334,7 +343,8 @@ def ev_keepalive_timer(s, fsm):
         if s.branch(T(s.get(fsm, 'hold_time')) > 0):
             t_reset(s, timer(s, fsm, 'ka'), s.get(fsm, 'keep_alive_time'))
     elif state_in(s, fsm, (ST_OPENSENT,)):
-        err_close(s, fsm, wire.E_FSM, ANY_SUB)
+        # RFC row: err_close(s, fsm, wire.E_FSM, ANY_SUB); the code ignores the event
+        known_deviation(s, 'KF-C01-2', 'OpenSent, Event 11: NOTIFICATION FSM error, close, Idle')
     elif state_in(s, fsm, (ST_CONNECT,)):
         drop(s, fsm)
 
@@ -468,11 +478,17 @@ def ev_notification_received(s, fsm, error, suberror):
         if version_err:
             drop(s, fsm, damp=False)
         else:
-            err_close(s, fsm, wire.E_FSM, ANY_SUB)
+            # RFC row: err_close(s, fsm, wire.E_FSM, ANY_SUB); the code closes without sending the NOTIFICATION
+            known_deviation(s, 'KF-C01-5', 'OpenSent, Event 25: NOTIFICATION FSM error before closing')
+            drop(s, fsm)
     elif state_in(s, fsm, (ST_OPENCONFIRM,)):
         drop(s, fsm, damp=not version_err)
     elif state_in(s, fsm, (ST_ESTABLISHED,)):
-        drop(s, fsm)
+        if version_err:
+            # RFC row: drop(s, fsm); the code ignores a version-error NOTIFICATION in Established
+            known_deviation(s, 'KF-C01-4', 'Established, Event 24: release resources, drop the connection, Idle')
+        else:
+            drop(s, fsm)
     elif state_in(s, fsm, (ST_CONNECT,)):
         drop(s, fsm)
 
@@ -489,7 +505,8 @@ def ev_keep_alive_received(s, fsm):
         if s.branch(T(s.get(fsm, 'hold_time')) > 0):
             t_reset(s, timer(s, fsm, 'hold'), s.get(fsm, 'hold_time'))
     elif state_in(s, fsm, (ST_OPENSENT,)):
-        err_close(s, fsm, wire.E_FSM, ANY_SUB)
+        # RFC row: err_close(s, fsm, wire.E_FSM, ANY_SUB); the code ignores the event
+        known_deviation(s, 'KF-C01-1', 'OpenSent, Event 26: NOTIFICATION FSM error, close, Idle')
     elif state_in(s, fsm, (ST_CONNECT,)):
         drop(s, fsm)
 
@@ -507,11 +524,14 @@ def ev_update_received(s, fsm):
         drop(s, fsm)
 
 
-def manual_stop_row(cease_states):
+def manual_stop_row(cease_states, rfc_states=()):
     def row(s, fsm):
         if state_in(s, fsm, cease_states):
             P = s.get(fsm, 'protocol')
             p_send_notification(s, P, wire.E_CEASE, ANY_SUB)
+        elif rfc_states and state_in(s, fsm, rfc_states):
+            # RFC row: Cease from these states too; the code sends it only from Established
+            known_deviation(s, 'KF-C01-3', 'ManualStop in OpenSent / OpenConfirm: NOTIFICATION Cease')
         for sh in NAME:
             t_cancel(s, timer(s, fsm, sh))
         P = s.get(fsm, 'protocol')
@@ -525,7 +545,7 @@ def manual_stop_row(cease_states):
 
 
 # Event 2 per RFC 4271 8.2.2: Cease from OpenSent, OpenConfirm and Established (C01)
-ev_manual_stop = prof(manual_stop_row(SESSION_STATES))
+ev_manual_stop = prof(manual_stop_row((ST_ESTABLISHED,), rfc_states=(ST_OPENSENT, ST_OPENCONFIRM)))
 # C13's own statement: "sends Cease if the session was Established"
 ev_manual_stop_c13 = prof(manual_stop_row((ST_ESTABLISHED,)))
 
